@@ -10,7 +10,7 @@ def field_writers(ctx, ty, field):
     for b in ctx.prog.bodies():
         for i, j, p, rv in b.assigns():
             if p["pr"] and p["pr"][-1] == "." + field and ty in b.local_ty(p["l"]):
-                out.add(b.name)
+                out |= ctx.prog.owners(b.name)
     return out
 
 
@@ -66,9 +66,14 @@ def variant_constructors(ctx):
     fs, node = struct_fields_of(h, "Variant")
     tbl = {}
     if fs:
-        for m in find_matches(fs["string_value"], min_arms=2, source=None):
-            tbl = table_of(m, lambda b: render(peel_result(b)))
-    ok = tbl.get("true", "").endswith('("true")') and any(v.endswith('("false")') for k, v in tbl.items() if k != "true")
+        import interp
+        pid = [p["id"] for p in ctx.prog.fns["function::Variant::from_bool"]["params"]][:1]
+        for bv in (True, False):
+            try:
+                tbl[bv] = interp.Interp().ev(fs["string_value"], {pid[0]: bv})
+            except (interp.Undecided, IndexError) as e:
+                tbl[bv] = "undecided: %s" % e
+    ok = tbl.get(True) == "true" and tbl.get(False) == "false"
     n += 1
     ctx.obligation(ok)
     if not ok:
@@ -215,7 +220,10 @@ def colorize_gate(ctx):
     ok = len(cs) == 1
     if ok:
         g = guards_of(ch, cs[0])
-        ok = any(t[0] == "match" and "self.use_colors" in render(t[1]) and "contains_colorized" in render(t[1]) and "&&" in render(t[1]) and render_pat(t[2]) == "true" for t in g)
+        pos, _ = guard_atoms(g)
+        locs = Locals(ch)
+        ptxt = [render(locs.chase(p)) for p in pos]
+        ok = any(p == "self.use_colors" for p in ptxt) and any("contains_colorized()" in p for p in ptxt)
     ctx.obligation(ok)
     if not ok:
         ctx.violation("colors/gate", ctx.where("searcher::Searcher::check_file"), "values may be colourised only under `use_colors && field.contains_colorized()`")
